@@ -5,6 +5,7 @@
 import NPModel.Refine.Samples
 import NPModel.Refine.GetItem
 import NPModel.Refine.Take
+import NPModel.Refine.SetItem
 namespace NP.C05
 open NP
 variable {α : Type}
@@ -66,6 +67,30 @@ theorem concat_is_append (ty : List (String × String)) (cs : List (PCol α)) (h
     (hne : cs.flatMap (·.chunks) ≠ []) :
     (NArr.concat ty cs).map PCol.rows = .ok (Spec.concat (cs.map PCol.rows)) :=
   concat_refines ty cs hv hne
+
+/-- **`column[mask] = value` is `rows[mask] = value`** — `NestedExtensionArray.__setitem__` with a
+    boolean-mask key, for every validated column in any physical layout (chunks, slices, hidden
+    child lists), every mask and every value (one row broadcast, or an array of rows): a mask of
+    the wrong length and too few values are IndexErrors, a ragged row among the values used is a
+    ValueError with nothing stored, nothing selected is no change; otherwise the values stand at
+    the selected rows in order, read back through the column's dtype (absent field = empty
+    list), and every other row — missing, empty or not — is unchanged. -/
+theorem setitem_mask_refines (c : PCol α) (hw : c.WF = true) (ha : c.aligned) (m : List Bool) (v : SetVal α) :
+    (NArr.setItem c (.mask m) v).map PCol.rows = Spec.setItem c.ty c.rows (.mask m) v :=
+  setItem_mask_refines c hw ha m v
+
+/-- The last step of every element assignment, whatever the key: `replace_with_mask` on the
+    combined storage followed by the validated replacement either fails (IndexError for too few
+    values, ValueError for a ragged value that would be used) or puts the values at the set
+    positions in order and leaves every other row unchanged. -/
+theorem setitem_finish (c : PCol α) (hw : c.WF = true) (ha : c.aligned) (mask : List Bool)
+    (hl : mask.length = c.len) (hpos : 0 < (mask.filter id).length) (vals : List (PScalar α)) :
+    (setItemFinish c mask vals).map PCol.rows =
+      if vals.length < (mask.filter id).length then .error .indexError
+      else if (List.range' 0 (mask.filter id).length).all (fun s => Row.rect (readBack c.ty vals s)) then
+        .ok (place (readBack c.ty vals) 0 mask c.rows)
+      else .error .valueError :=
+  setItemFinish_spec c hw ha mask hl hpos vals
 
 /-- validated storage is aligned, so the hypotheses of `take_refines` are met by everything the
     constructor accepts -/
